@@ -239,7 +239,12 @@ func c02Excluded(tc l4Case, f *syntax.File, sh *shape) string {
 		}
 		// the source has the parentheses on different lines because of a newline the printer does
 		// not keep (inside $(( )) / (( ))): the output is one line and the next pass adds the blank
-		return stmts[0].Pos().Line() == open.Line() && !forcesNewline(stmts[0], o)
+		if stmts[0].Pos().Line() == open.Line() && !forcesNewline(stmts[0], o) {
+			return true
+		}
+		// or because a comment that is flushed early has moved the printer's line counter past
+		// these lines, so none of the line breaks in between is kept
+		return hasComments(f)
 	}) {
 		return "C02-closing-paren-space"
 	}
@@ -316,6 +321,16 @@ func c02Excluded(tc l4Case, f *syntax.File, sh *shape) string {
 		return ok && len(b.Y.Comments) > 0 && hasHeredoc(b)
 	}) {
 		return "C02-binnext-heredoc-comment"
+	}
+	// C02-binnext-heredoc-indent: BinaryNextLine with a here-document pending on the left operand:
+	// the operator stays on the line (no backslash-newline is written) but the extra indentation
+	// level of the multi-line path is still taken; the second pass sees both operands on one line
+	// and indents the right operand's lines one level less.
+	if o.BinNext && sh.any(func(n syntax.Node) bool {
+		b, ok := n.(*syntax.BinaryCmd)
+		return ok && hasHeredoc(b.X) && b.Y.Pos().Line() > b.X.Pos().Line() && b.Y.End().Line() > b.Y.Pos().Line()
+	}) {
+		return "C02-binnext-heredoc-indent"
 	}
 	// C02-test-close-line: `[[ y` NEWLINE `]]` is printed on one line but the printer's line
 	// counter stays on the line of `y`, so what follows `]]` on its source line (`;;`, `&&` …)
